@@ -9,8 +9,19 @@ import (
 // SortedMapKeys returns the keys of a map value in a deterministic order:
 // strings lexically, numbers numerically, keys of different kinds by kind.
 // Go randomizes map iteration, and template output must not depend on it.
+//
+// A key that does not equal itself (a floating-point NaN) can be listed but
+// never looked up; it is left out, so that every key returned has an entry.
 func SortedMapKeys(rv reflect.Value) []reflect.Value {
 	keys := rv.MapKeys()
+	n := 0
+	for _, k := range keys {
+		if rv.MapIndex(k).IsValid() {
+			keys[n] = k
+			n++
+		}
+	}
+	keys = keys[:n]
 	sort.SliceStable(keys, func(i, j int) bool { return mapKeyLess(keys[i], keys[j]) })
 	return keys
 }
